@@ -169,7 +169,7 @@ def main(tier):
                        'ProgramOptions::save(HDF5File*) parameter attributes and exceptions from HDF5 are outside']
     chk.stubs = ['H5::* C++ API: recorder', 'operator new/delete', 'std::string members']
     chk.replayer = replayer(bld)
-    chk.add(run_jobs(jobs, budget=900 if tier == 'quick' else 3000))
+    _rs = run_jobs(jobs, budget=900 if tier == 'quick' else 3000); _rs.append(mainloop.loop_witness(_rs, 'C10')); chk.add(_rs)
     chk.finish()
 
 if __name__ == '__main__':
